@@ -7,7 +7,9 @@
    Strings (IDs, alleles) are interned to Z by the harness: haplotype IDs and
    variant IDs share one name space.  [legacy = true] is the pinned tree
    (`variants = None; variants.add(target)` for a variant target with
-   --from-gts); [legacy = false] the tree after fixes/C16_fromgts_variant_target.patch. *)
+   --from-gts); [legacy = false] the tree after fixes/C16_fromgts_variant_target.patch.
+   [calc_ld_cli] adds what fixes/C16_repeated_id.patch does first: an ID given twice with
+   --id counts once ([dedup] = tuple(dict.fromkeys(ids))). *)
 From HV Require Import Prelude PearsonQ.
 From Coq Require Import QArith.
 Open Scope Z_scope.
@@ -134,3 +136,14 @@ Definition calc_ld (legacy : bool) (target : Z) (gs : list gvar) (lines : list h
                   end in
     Ok (map (fun g => (gv_id g, corr tdos (var_dosage keep g))) listed)
   else Ok (map (fun hd : Z * list Z => (fst hd, corr tdos (snd hd))) hd)))).
+
+(* tuple(dict.fromkeys(ids)): first occurrences, in order *)
+Fixpoint dedup (l : list Z) : list Z :=
+  match l with
+  | [] => []
+  | a :: r => a :: filter (fun x => negb (x =? a)) (dedup r)
+  end.
+
+Definition calc_ld_cli (legacy : bool) (target : Z) (gs : list gvar) (lines : list hline)
+           (keep : list bool) (ids : option (list Z)) (from_gts : bool) : res (list row) :=
+  calc_ld legacy target gs lines keep (if legacy then ids else option_map dedup ids) from_gts.
